@@ -60,7 +60,7 @@ def _ident_job(k):
 def run(tier, only=None):
     R = Run("C06", tier, "model_checking")
     depth = 2 if tier == "quick" else 3
-    behs, types = lawcheck.behaviours(R, ["ScaleRho", "ScaleV", "ScaleLen", "Translate", "Reorder", "Reexpress"], lawcheck.ALL_BASE, depth)
+    behs, types = lawcheck.behaviours(R, ["ScaleRho", "ScaleV", "ScaleLen", "Translate", "Reorder", "Reexpress"], lawcheck.ALL_BASE, depth, keep=400 if tier == "quick" else 4000)
     lawcheck.replay_all(R, "C06", behs, limit=400 if tier == "quick" else 4000)
     # the same laws one step at a time over five decades of the scale factors: a floor, a clamp or a tolerance in absolute
     # units (a minimum panel area, a minimum force, ...) is invisible at factors 2 and 1/3
